@@ -225,14 +225,14 @@ def verify(cref, level="quick", repo=REPO, max_paths=20000, parallel=True, budge
     budget_s: wall-clock budget for this contract; when it is exhausted no new path is started and the contract's obligations are
     reported as undecided (never as proved, never as a violation)."""
     if budget_s is None:
-        budget_s = float(os.environ.get("PYVC_BUDGET_S", "240" if level == "quick" else "2400"))
+        budget_s = float(os.environ.get("PYVC_BUDGET_S", "2400" if level == "thorough" else "240"))
     t_start = time.time()
     mod, name = cref
     contract = getattr(importlib.import_module(mod), name)
     res = Result(contract)
     ex = pool() if parallel else None
     pending = {}
-    shapes = list(contract.shapes(level))
+    shapes = list(contract.shapes(level if (level != "lite" or getattr(contract, "knows_lite", False)) else "quick"))
     res.shapes = [contract.shape_text(s) for s in shapes]
 
     def submit(shape, prefix):
